@@ -62,6 +62,11 @@ claimed["C16"] = dict(
    note="Trusted: govc and the SMT solvers; regexp (FindAllStringSubmatch returns one group list of length 3 per match; ReplaceAllStringFunc applies the closure to every match and keeps the rest: the engine itself is not modelled), strings.Cut / ReplaceAll / NewReplacer, fmt.Sprintf as uninterpreted functions; the classifiers isSelectKey / isUniqueConstraint are functions of the comment. Call-argument clauses (callarg) pin what is handed to Sprintf, not the template text. Not decided: which struct a comment is attributed to (fetchStructComments navigates the syntax tree by position), regular-expression semantics (what counts as a word, as a placeholder), the SQL meaning of the result.",
    ref="DESIGN §4 C16")
 
+claimed["C05"] = dict(
+   text="Kernel claim (" + KERNEL_NOTE + "): the column alignment and the placeholder arithmetic of the CRUD generator, proved for all tables. newColumnsCode: the five parallel lists have the same length; position k of the scan list, the value list, the quoted and plain column-name lists is built from the SAME non-guard column, every non-guard column occurs, guards occur in none; placeholder k is $k+1; the lists without the primary key are aligned the same way over the columns other than the primary one, with their own $k+1; when the primary key is a regular column the full lists have exactly one more entry — which is what makes $<columnsCount> the next free placeholder of UPDATE ... WHERE id =. Table.Primary returns the first column whose lower-cased name is id (or -1). columnsComparison / columsFuncTitle / columsVarDecls: the k-th comparison, title part, variable and declaration all come from column k, comparison k uses $k+1. Link tables: comparison k uses $k+1 (both occurrences for nullable keys) and the k-th accessed field is the same foreign key. sqlColumnName is the lower-cased Go name; both generators call the one SQLTableName.",
+   note="Trusted: govc and the SMT solvers; fmt.Sprintf, strings.ToLower, reflect.StructTag.Get as uninterpreted functions (a statement about which column feeds which position, not about the printed characters); PostgreSQL folds unquoted identifiers, so the lower-cased column name of the CRUD code denotes the column the schema declares with its Go name (assumed). Not decided: the statement templates that consume these lists (the Sprintf texts), execution against a database, the map-model behaviour of insert/select/update/delete. A bounded harness checks, on one model file, that every statically known generated statement has placeholders exactly $1..$n for its n arguments.",
+   ref="DESIGN §4 C05")
+
 not_applicable = {
  "C01": "type-checking of emitted Go text for all inputs needs a typing judgement over Sprintf templates; no contract on a Go function returning a string can express it (DESIGN §5)",
  "C02": "round trip and wire bytes are run-time behaviour of the emitted wrappers under encoding/json; a contract on the generator can only restate its templates (DESIGN §5)",
